@@ -3,7 +3,7 @@
    OCaml's own; N, positive, nat, ascii, string, comparison stay Coq datatypes. *)
 Require Extraction.
 Require ExtrOcamlBasic.
-From RC Require Import Base.Res Model.Enums Gen.EnumTables.
+From RC Require Import Base.Res Base.Wire Model.Enums Gen.EnumTables Gen.Merge Model.Open Model.Negotiate.
 Extraction Language OCaml.
 Set Extraction KeepSingleton.
 Extraction "../ocaml/model.ml"
@@ -11,4 +11,6 @@ Extraction "../ocaml/model.ml"
   Enums.nlritype_of Enums.nlritype_afisafi Enums.details_of Enums.details_raw
   EnumTables.all_enums EnumTables.afisafi_table EnumTables.afisafi_names EnumTables.te_afi
   EnumTables.te_afi_names EnumTables.details_error_code EnumTables.details_table EnumTables.details_names EnumTables.details_sub_keys
+  Open.open_caps Negotiate.addpath_intersection Negotiate.session_config Negotiate.pph_session_config
+  Negotiate.live_session_config Negotiate.get_addpath Negotiate.rx_addpath Negotiate.addpath_families_vec
   EnumTables.all_enum_widths EnumTables.all_enum_names.
